@@ -211,6 +211,27 @@ def render(spec: Spec, placement: str = 'root', odd_names: bool = False, with_te
             return 300 + j + sum(value(p) for p, r in n.uses)
         return 0
 
+    def gen_src_prelude(j: int) -> str:
+        """A generated C source is compiled as part of its (single) consumer: it includes the generated headers that
+        consumer uses, so the compile step of the *generated* source needs them too."""
+        cons = [i for i, n in enumerate(spec) if n.kind in 'LE' and any(p == j and r == 'src' for p, r in n.uses)]
+        if not cons:
+            return ''
+        i = cons[0]
+        cloc = where(i, spec[i])
+        lines, terms = [], []
+        for p, r in spec[i].uses:
+            if p == j or spec[p].kind == 'L':
+                continue
+            inc = c_include(p)
+            if inc is None or spec[p].kind == 'S':
+                continue
+            if cloc == 'sub' and inc.startswith('sub/'):
+                inc = inc[4:]
+            lines.append('#include "%s"\n' % inc)
+            terms.append('V_%s' % origin_macro(p))
+        return ''.join(lines) + ('enum { prelude_%d = %s };\n' % (j, ' + '.join(terms)) if terms else '')
+
     for i, n in enumerate(spec):
         me = nm(i, n)
         names.append(me)
@@ -227,7 +248,7 @@ def render(spec: Spec, placement: str = 'root', odd_names: bool = False, with_te
             files[d + me + '.h.in'] = '#define V_%s @V@\n' % me.upper()
             out.append("%s = configure_file(input: '%s.h.in', output: '%s.h', configuration: {'V': %d})" % (me, me, me, value(i)))
         elif n.kind == 'S':
-            files[d + me + '.c.in'] = 'int f%s(void) { return %d; }\n' % (me, value(i))
+            files[d + me + '.c.in'] = gen_src_prelude(i) + 'int f%s(void) { return %d; }\n' % (me, value(i))
             if n.variant == 'two':
                 files[d + me + '.h.in'] = 'int f%s(void);\n' % me
                 out.append("%s = custom_target('%s', input: ['%s.c.in', '%s.h.in'], output: ['%s.c', '%s.h'], "
@@ -235,7 +256,7 @@ def render(spec: Spec, placement: str = 'root', odd_names: bool = False, with_te
             else:
                 out.append("%s = custom_target('%s', input: '%s.c.in', output: '%s.c', command: [cp, '@INPUT@', '@OUTPUT@'])" % (me, me, me, me))
         elif n.kind == 'G':
-            files[d + me + '.in'] = 'int f%s(void) { return %d; }\n' % (me, value(i))
+            files[d + me + '.in'] = gen_src_prelude(i) + 'int f%s(void) { return %d; }\n' % (me, value(i))
             if not gen_declared[loc]:
                 out.append("gen_%s = generator(cp, output: '@BASENAME@.c', arguments: ['@INPUT@', '@OUTPUT@'])" % loc)
                 gen_declared[loc] = True
